@@ -217,7 +217,9 @@ pub fn gen(seed: u64, tier: Tier, k: u64) -> Value {
         indexes.push(IndexDef { name: "win".into(), store: 0, offset: o, count: c });
         indexes.push(IndexDef { name: "head".into(), store: 0, offset: 0, count: n as u32 - 1 });
     }
-    let case = DirCase { seed: rng.next(), vstores: vec![indexed], stores: vec![store], indexes };
+    // integers handed over as immediate values, deferred words, or a per-entry mix of both
+    let defer = *rng.pick(&[0u8, 0, 1, 1, 2]);
+    let case = DirCase { seed: rng.next(), vstores: vec![indexed], stores: vec![store], indexes, defer };
     let mut v = case.to_json();
     v["via"] = json!(if rng.chance(1, 2) { "file" } else { "mem" });
     v
